@@ -97,7 +97,9 @@ def sample_lines(path, want=(40, 5000, 30000)):
 
 
 def run_property(prop, tier, report):
-    libs = ["core"]
+    # core: every operation kind over a small library; ver: versioned interface names (semver
+    # tracks, shared implicit imports, explicit imports on a track) with the packages pre-registered
+    libs = ["core", "ver"]
     total_states = total_trans = 0
     summaries = {}
     samples = []
